@@ -351,6 +351,9 @@ class Check:
         exit_code = 0
         lines = []
         REPLAY_DIR.mkdir(exist_ok=True)
+        stale = REPLAY_DIR / f"{self.prop}_{self.tier}_{self.seed}.json"
+        if stale.exists():
+            stale.unlink()
         for fid, info in self.known_seen.items():
             lines.append(f"KNOWN-FINDING: property={self.prop} {fid}: {info['what']}")
         viol_count = 0
